@@ -647,3 +647,45 @@ pub fn gen12(r: &mut Rng, n: usize) -> Vec<String> {
     }
     out
 }
+
+
+/// C09 (manager side): `mreq <statuses> <flags: am_choked choked interested am_interested> <idx>` → the manager's
+/// answer to `RecvRequest`.
+pub fn op_mreq(statuses: &str, flags: &str, idx: usize) -> String {
+    let st = parse_statuses(statuses);
+    let f: Vec<bool> = flags.chars().map(|c| c == '1').collect();
+    let r = catch(|| {
+        rt().block_on(async {
+            let mut s = Session::new(metainfo(st.len(), 16384, 16384), own_id());
+            s.verif_add_peer(addr_of(0), None);
+            {
+                let p = s.verif_peers().get_mut(&addr_of(0)).unwrap();
+                p.am_choked = f[0];
+                p.choked = f[1];
+                p.interested = f[2];
+                p.am_interested = f[3];
+            }
+            *s.verif_statuses() = st.clone();
+            let (tx, rx) = tokio::sync::oneshot::channel();
+            let _ = s.verif_handle_peer_cmd(PeerCmd::RecvRequest { addr: addr_of(0), piece_index: idx, resp_ch: tx }).await;
+            match rx.await {
+                Ok(RequestCmd::LoadAndSendPiece { piece_index, piece_hash }) => format!("ld:{}:{}", piece_index, hex(&piece_hash)),
+                Ok(RequestCmd::Ignore) => "ig".to_string(),
+                Err(_) => "noreply".to_string(),
+            }
+        })
+    });
+    r.unwrap_or_else(|_| "P".into())
+}
+
+pub fn gen_mreq(r: &mut Rng) -> String {
+    let n = 1 + r.below(6) as usize;
+    let st: Vec<&str> = (0..n).map(|_| *r.pick(&["m", "h", "h", "r1", "r2"])).collect();
+    let flags: String = (0..4).map(|_| if r.coin() { '1' } else { '0' }).collect();
+    let idx = match r.below(6) {
+        0 => n,
+        1 => n + 3,
+        _ => r.below(n as u64) as usize,
+    };
+    format!("mreq {} {} {}", st.join(","), flags, idx)
+}
